@@ -33,6 +33,7 @@ func (it *Iterator) Finish(err error) {
 	if it.doneClosed.SetToIf(false, true) {
 		close(it.Done)
 	}
+	verifPoint("iterator.finish")
 
 	it.errLock.Lock()
 	defer it.errLock.Unlock()
